@@ -46,6 +46,8 @@ class Run:
         self.explanation = ''
         self.rules_text = {}
         self.selftest = None
+        self.floor_failures = []
+        self.analysis_error = None
 
     # --------------------------------------------------------------------- recording
     def rule(self, rule, text):
@@ -86,8 +88,9 @@ class Run:
         """A rule that matches fewer instances than were confirmed by hand passes vacuously: refuse."""
         self.floors[what] = {'measured': count, 'floor': minimum}
         if count < minimum:
-            raise AnalysisError('%s: %d instances found, confirmed floor is %d (anchor vanished or rule no longer matches)'
-                                % (what, count, minimum))
+            # judged at the end: a finding that was located is reported as such; a pass below the floor is refused (exit 2)
+            self.floor_failures.append('%s: %d instances found, confirmed floor is %d (anchor vanished or rule no longer matches)'
+                                       % (what, count, minimum))
 
     def assume(self, text):
         if text not in self.assumptions:
@@ -152,8 +155,9 @@ class Run:
         ev = {'property_id': self.prop, 'tier': self.tier, 'seed': int(os.environ.get('VERIF_SEED', '0') or 0),
               'level': 'other', 'coverage': cov, 'assumptions': self.assumptions, 'wall_s': round(wall, 3),
               'violations': len(new)}
-        os.makedirs(os.path.join(VERIF, 'evidence'), exist_ok=True)
-        with open(os.path.join(VERIF, 'evidence', self.prop + '.json'), 'w') as fh:
+        evdir = os.environ.get('MIROS_VERIF_OUT') or VERIF
+        os.makedirs(os.path.join(evdir, 'evidence'), exist_ok=True)
+        with open(os.path.join(evdir, 'evidence', self.prop + '.json'), 'w') as fh:
             json.dump(ev, fh, indent=1, sort_keys=False)
         print('property %s tier=%s: %d rule instances (%d distinct non-trivial), %d obligations/%d discharged, '
               '%d functions, %.2fs' % (self.prop, self.tier, len(self.instances), distinct_nontrivial,
@@ -164,10 +168,18 @@ class Run:
             k = open_keys[f.key]
             print('KNOWN-FINDING: property=%s %s [%s] %s at %s: %s' % (self.prop, k.get('id', ''), f.rule, f.func, f.site,
                                                                       k.get('what', f.message)))
+        if not new and (self.floor_failures or self.analysis_error):
+            msg = self.analysis_error or self.floor_failures[0]
+            print('ANALYSIS-ERROR property=%s %s' % (self.prop, msg))
+            return 2
+        if new and (self.floor_failures or self.analysis_error):
+            print('  note: the analysis was incomplete (%s); the findings below were located before that point'
+                  % (self.analysis_error or self.floor_failures[0]))
         if new:
-            os.makedirs(os.path.join(VERIF, 'reports'), exist_ok=True)
+            evdir = os.environ.get('MIROS_VERIF_OUT') or VERIF
+            os.makedirs(os.path.join(evdir, 'reports'), exist_ok=True)
             for i, f in enumerate(new):
-                path = os.path.join(VERIF, 'reports', '%s_%d.json' % (self.prop, i))
+                path = os.path.join(evdir, 'reports', '%s_%d.json' % (self.prop, i))
                 with open(path, 'w') as fh:
                     json.dump({'property': self.prop, 'tier': self.tier, 'finding': f.as_dict(),
                                'rule_text': self.rules_text.get(f.rule, ''), 'repo': repo_root(),
